@@ -7,7 +7,7 @@ def run(ctx):
     for fl in ("bits", "bitmap", "dsz"):
         vlib.seq_component(ctx, "Bits-" + fl, "Bits", "Bits", "MC_quick.cfg" if quick else "MC_thorough.cfg",
                            "BitsTrace", "Trace.cfg", "bits", [], walk_mode="probe" if quick else "cover",
-                           rand_n=150 if quick else 3000, rand_len=80 if quick else 150,
+                           rand_n=150 if quick else 1500, rand_len=80 if quick else 150,
                            trace_every=2 if quick else 5, env={"VERIF_FLAVOUR": fl}, emit_from=emit)
         emit = ctx.last_emit
     ctx.assumptions += ["dsz.Bits has no bulk operations, no Range and no bool results: Diff/Intersect/Merge/Clone are emulated element-wise through its own API and 'changed' is read from Len()",
